@@ -232,39 +232,84 @@ pub fn worker_main() -> ! {
         // replay mode: show what panics, in one line each
         std::panic::set_hook(Box::new(|info| eprintln!("panic: {}", info)));
     }
+    // Supervisor mode (default): this process never runs a request itself. It forks a child that
+    // serves requests until stdin closes; if the child is killed, the supervisor reports
+    // `{"died": ...}` on stdout and forks the next child from its own pristine state. An abort then
+    // costs a fork, not an exec (starting this binary costs > 100 ms on a loaded machine).
+    // The parent has at most one request outstanding, so a dying child never swallows a later one.
+    let supervise = std::env::var("VX_C13_NOFORK").is_err() && std::env::var("VX_C13_KEEP_STDERR").is_err();
+    if !supervise {
+        serve_until_eof();
+        std::process::exit(0);
+    }
+    loop {
+        let pid = unsafe { libc::fork() };
+        if pid < 0 {
+            // cannot supervise: serve in-process (a death is then seen by the parent as EOF)
+            serve_until_eof();
+            std::process::exit(0);
+        }
+        if pid == 0 {
+            serve_until_eof();
+            unsafe { libc::_exit(0) };
+        }
+        let mut status: libc::c_int = 0;
+        unsafe {
+            while libc::waitpid(pid, &mut status, 0) < 0 {
+                if *libc::__errno_location() != libc::EINTR {
+                    break;
+                }
+            }
+        }
+        let how = if libc::WIFSIGNALED(status) {
+            format!("killed by signal {}", libc::WTERMSIG(status))
+        } else if libc::WIFEXITED(status) && libc::WEXITSTATUS(status) != 0 {
+            format!("exited with code {}", libc::WEXITSTATUS(status))
+        } else {
+            std::process::exit(0)
+        };
+        let stdout = std::io::stdout();
+        let mut o = stdout.lock();
+        let _ = writeln!(o, "{}", serde_json::json!({ "died": how }));
+        let _ = o.flush();
+    }
+}
+
+fn serve_until_eof() {
     let stdin = std::io::stdin();
     let stdout = std::io::stdout();
     let mut line = String::new();
     loop {
         line.clear();
         match stdin.lock().read_line(&mut line) {
-            Ok(0) | Err(_) => std::process::exit(0),
+            Ok(0) | Err(_) => return,
             Ok(_) => {}
         }
-        let req: Req = match serde_json::from_str(&line) {
-            Ok(r) => r,
+        match serde_json::from_str::<Req>(&line) {
+            Ok(req) => serve(&req),
             Err(e) => {
                 let mut o = stdout.lock();
                 let _ = writeln!(o, "{}", serde_json::json!({"bad_request": e.to_string()}));
                 let _ = o.flush();
-                continue;
             }
-        };
-        let resp = match req {
-            Req::Measure { body, max_execs } => serde_json::to_string(&measure(&body, max_execs)).unwrap(),
-            Req::Cell(c) => serde_json::to_string(&run_cell(&c)).unwrap(),
-            Req::Batch(cs) => {
-                for c in &cs {
-                    let r = serde_json::to_string(&run_cell(c)).unwrap();
-                    let mut o = stdout.lock();
-                    let _ = writeln!(o, "{}", r);
-                    let _ = o.flush();
-                }
-                continue;
-            }
-        };
+        }
+    }
+}
+
+fn serve(req: &Req) {
+    let stdout = std::io::stdout();
+    let emit = |s: String| {
         let mut o = stdout.lock();
-        let _ = writeln!(o, "{}", resp);
+        let _ = writeln!(o, "{}", s);
         let _ = o.flush();
+    };
+    match req {
+        Req::Measure { body, max_execs } => emit(serde_json::to_string(&measure(body, *max_execs)).unwrap()),
+        Req::Cell(c) => emit(serde_json::to_string(&run_cell(c)).unwrap()),
+        Req::Batch(cs) => {
+            for c in cs {
+                emit(serde_json::to_string(&run_cell(c)).unwrap());
+            }
+        }
     }
 }
